@@ -143,3 +143,88 @@ def decisions_text(path, limit=12):
     for k, v in path.decisions:
         out.append(f"{k}={v}")
     return "; ".join(out[:limit]) + (" …" if len(out) > limit else "")
+
+
+def words(stmt: Statement, facts: dict, letters=("F", "S", "R", "T", "X", "Y", "Z", "E", "P")):
+    """(letter, value, status, how) for the address words of a delivered statement.
+
+    status: 'present' | 'possible' (an unknown entry of an open record whose
+    presence the path never decided); how: 'number' (through number()),
+    'raw' (interpolated without number()), 'int' (integer format spec)."""
+    from .poly import Poly
+    out = []
+    parts = stmt.parts
+    for i, p in enumerate(parts):
+        if isinstance(p, ParamsFmt):
+            seen = set()
+            for k, v in p.entries:
+                if not isinstance(k, str):
+                    continue
+                seen.add(k)
+                if isinstance(v, Const) and v.v is None:
+                    # axis entries that are None are skipped by the formatter; other labels print 'None'
+                    if k in ("X", "Y", "Z"):
+                        continue
+                out.append((k, v, "present", "number" if isinstance(v, (Num,)) or (isinstance(v, Const) and isinstance(v.v, (int, float))) else "raw"))
+            if p.open:
+                for L in letters:
+                    if L in seen:
+                        continue
+                    for b in p.bases:
+                        f = facts.get(f"has:{b}[{L}]")
+                        if f is False or facts.get(f"nonempty:{b}") is False:
+                            continue
+                        out.append((L, Num(Poly.sym(f"{b}[{L}]")), "present" if f is True else "possible", "number"))
+        elif isinstance(p, (NumFmt, StrOf)):
+            prev = parts[i - 1] if i else None
+            if isinstance(prev, Lit) and prev.text and prev.text[-1].isalpha() and (len(prev.text) == 1 or not prev.text[-2].isalnum()):
+                how = "number" if isinstance(p, NumFmt) else ("int" if _int_spec(p) else "raw")
+                out.append((prev.text[-1].upper(), p.value, "present", how))
+    return out
+
+
+def _int_spec(p: StrOf) -> bool:
+    v = p.value
+    spec = p.spec or ""
+    is_int = isinstance(v, Num) and v.is_int or (isinstance(v, Const) and isinstance(v.v, int))
+    return bool(is_int) and not any(c in spec for c in "eEgG%")
+
+
+def same_value(a, b) -> bool:
+    if isinstance(a, Num) and isinstance(b, Num):
+        return a.p == b.p
+    if isinstance(a, Const) and isinstance(b, Num) or isinstance(a, Num) and isinstance(b, Const):
+        from .poly import Poly
+        c, n = (a, b) if isinstance(a, Const) else (b, a)
+        try:
+            return isinstance(c.v, (int, float)) and not isinstance(c.v, bool) and Poly.const(c.v) == n.p
+        except ValueError:
+            return False
+    return a == b
+
+
+def calls(path, qualname):
+    return [e for e in path.trace if e.kind == "CALL" and e.data.get("func") == qualname]
+
+
+def resolve(v, facts):
+    """Value of a havocked initial-store entry under the decisions of one path."""
+    from .poly import Poly
+    if isinstance(v, Choice):
+        if v.kind == "bool" and ("bool:" + v.name) in facts:
+            return Const(facts["bool:" + v.name])
+        if v.kind.startswith("enum:") and ("enum:" + v.name) in facts:
+            return Member(v.kind[5:], facts["enum:" + v.name])
+        return v
+    if isinstance(v, Opt):
+        k = facts.get("opt:" + v.name)
+        if k == "none":
+            return NONE
+        if k == "some":
+            return Num(Poly.sym(v.name))
+        return v
+    if isinstance(v, NT):
+        return NT(v.cls, v.names, tuple(resolve(x, facts) for x in v.items))
+    if isinstance(v, Tup):
+        return Tup(tuple(resolve(x, facts) for x in v.items))
+    return v
